@@ -30,7 +30,7 @@ func c12Gen(r *RNG, id string) *Case {
 	if r.Chance(1, 4) { // the exported order-restoring writers under an adversarial arrival order
 		return reordGen(r, id)
 	}
-	kinds := []string{"snps", "snps-agg", "variants", "variants-agg", "variants-gff-shared", "toma", "topa-dir", "topa-stdout", "samvariants", "samvariants-agg",
+	kinds := []string{"snps", "snps-agg", "variants", "variants-agg", "variants-gff-shared", "toma", "topa-dir", "topa-stdout", "samvariants", "samvariants-agg", "samvariants-twins", "samvariants-twins", "samvariants-twins",
 		"closest", "closest-n", "list", "topranking", "topranking-push", "topranking-csv", "topranking-ignore"}
 	kind := kinds[r.Intn(len(kinds))]
 	c := NewCase("REL", id)
@@ -116,6 +116,40 @@ func execC12(c *Case) {
 		run = func(cfg runCfg) result {
 			vc.SetInt("threads", cfg.threads)
 			return runVariants(vc, seqs, names, vc.Get("anntext"), vc.Get("annfmt"), kind == "variants-agg", false)
+		}
+	case "samvariants-twins":
+		// reads whose insertions have the same length, lie in the same coding feature and sit at different places: the
+		// offsets at the feature's two ends agree, the columns inside do not - whatever is kept between pairs and keyed
+		// by the former depends on which read a worker meets first
+		L := 3 * r.Range(14, 24)
+		ref := randSeq(r, L, symACGT, false)
+		g := gene{name: "g0", strand: 1, codonStart: 1, segs: [][2]int{{1, L}}, gbForm: "range", gffNamed: true, gffID: true, gffType: "CDS"}
+		annTxt, annFmt := "", "gb"
+		if r.Bool() {
+			annTxt, _ = renderGenbank([]gene{g}, ref)
+		} else {
+			annFmt = "gff"
+			annTxt, _ = renderGFF(gffRowsOf(g), ref, true, true, "refx")
+		}
+		sites := []int{r.Range(3, L/3), r.Range(L/3+1, 2*L/3), r.Range(2*L/3+1, L-3)}
+		var all []samRec
+		for k := 0; k < 45; k++ {
+			at := sites[k%3]
+			q := []byte(ref)
+			for _, p := range []int{r.Intn(L), r.Intn(L)} {
+				q[p] = r.Pick(symACGT)
+			}
+			seq := string(q[:at]) + "ACG" + string(q[at:])
+			all = append(all, samRec{name: fmt.Sprintf("tw%02d", k), flag: 0, pos: 1, cigar: fmt.Sprintf("%dM3I%dM", at, L-at), seq: seq})
+		}
+		txt := samText("refx", L, all, true)
+		refTxt := renderFasta([]string{"refx"}, []string{ref}, lay)
+		run = func(cfg runCfg) result {
+			return safeRun(60*time.Second, func() (string, error) {
+				var out bytes.Buffer
+				err := sam.Variants(strings.NewReader(txt), strings.NewReader(refTxt), true, strings.NewReader(annTxt), annFmt, &out, -1, -1, false, 0, true, cfg.threads)
+				return out.String(), err
+			})
 		}
 	case "toma", "topa-dir", "topa-stdout", "samvariants", "samvariants-agg":
 		sv := samVarGen(r, "x", 3, false)
